@@ -25,36 +25,3 @@ Proof. vm_compute. reflexivity. Qed.
 Theorem natives_named_once :
   forallb (fun d => Nat.eqb (List.length (filter (fun d' => String.eqb (nd_name d') (nd_name d)) gen_natives)) 1) gen_natives = true.
 Proof. vm_compute. reflexivity. Qed.
-
-(* ---- the natives that compare types compare them by name (internal/xtypes), never by object identity ----
-   ctx.Type comes from the type-checker of the analysed package, ctx.GetType / ctx.GetInterface from the engine's
-   importer: two universes whose named types are different objects. go/types' binary predicates compare named types by
-   identity, so a native calling one of them answers differently from the built-in predicate it mirrors. *)
-Local Open Scope string_scope.
-Definition gotypes_comparisons : list string :=
-  ["Identical"; "IdenticalIgnoreTags"; "Implements"; "AssignableTo"; "ConvertibleTo"; "AssertableTo"; "Satisfies"; "MissingMethod"].
-
-Definition calls (callees : list string) (f : string) : bool := existsb (String.eqb f) callees.
-
-Theorem natives_never_compare_by_identity :
-  forallb (fun '(_, callees) =>
-             forallb (fun f => negb (calls callees ("types." ++ f))) (gotypes_comparisons ++ gen_xtypes_funcs))
-          gen_native_pkgcalls = true.
-Proof. vm_compute. reflexivity. Qed.
-
-(* every dsl/types function that xtypes implements is bound to a native that calls the xtypes function *)
-Definition dsl_types_path : string := "github.com/quasilyte/go-ruleguard/dsl/types.".
-Theorem dsl_types_comparisons_route_to_xtypes :
-  forallb (fun f => match find (fun '(n, _) => String.eqb n (dsl_types_path ++ f)) gen_native_pkgcalls with
-                    | Some (_, callees) => calls callees ("xtypes." ++ f)
-                    | None => false
-                    end) gen_xtypes_funcs = true.
-Proof. vm_compute. reflexivity. Qed.
-
-(* the table covers every native bound by libdsl.go *)
-Theorem native_pkgcalls_complete :
-  forallb (fun d => String.prefix "github.com/quasilyte/go-ruleguard/dsl" (nd_name d)
-                    || String.prefix "*github.com/quasilyte/go-ruleguard/dsl" (nd_name d)
-                    || negb (existsb (fun '(n, _) => String.eqb n (nd_name d)) gen_native_pkgcalls)) gen_natives = true /\
-  forallb (fun '(n, _) => existsb (fun d => String.eqb (nd_name d) n) gen_natives) gen_native_pkgcalls = true.
-Proof. split; vm_compute; reflexivity. Qed.
